@@ -62,7 +62,7 @@ func labelHeights(tier string) []int {
 func init() {
 	propConfigs["C01"] = &propConfig{
 		level:   "other",
-		explain: "Deductive part (all inputs, no bound): contracts on the real signing path (xmssFastSignMessage, wotsSign, expandSeed, getSeed, genChain, hashF, prf, coreHash, hMsg, (*XMSS).Sign/SetIndex) and on the verification path (xmssVerifySig, wotsPKFromSig, lTree, validateAuthPath, CalcBaseW): memory safety for every length, signature layout length 2180+32h with the index field equal to the consumed index, index automaton (C02), frames. Bounded part (labelled bounded, never counted as discharged): (1) the BDS traversal invariant 'the stored authentication path of leaf i is Node(j,(i>>j) xor 1) and the root is Node(h,0)' is evaluated on the REAL traversal code for EVERY index of every listed height with node labels in place of digests (only hashH and genLeafWOTS bodies are spliced, mechanically, on each run); (2) with the real hash functions every signature at every index of the small heights verifies. Under functional contract since: genChain = recursive spec chain (with composition lemma chain(chain(X,s,a),s+a,b) = chain(X,s,a+b) and congruence lemmas by induction), CalcBaseW digits + checksum, wotsSign / wOTSPKGen / wotsPKFromSig node-wise, lTree = lnode, validateAuthPath = fold, xmssVerifySig accepts iff the closed-form root equals the pk root (C04). Not claimed: the lemma function composing wotsSign -> wotsPKFromSig == wOTSPKGen (written, tag C01X, instantiations not found reliably) and the BDS traversal as a deductive invariant.",
+		explain: "Deductive part (all inputs, no bound): contracts on the real signing path (xmssFastSignMessage, wotsSign, expandSeed, getSeed, genChain, hashF, prf, coreHash, hMsg, (*XMSS).Sign/SetIndex) and on the verification path (xmssVerifySig, wotsPKFromSig, lTree, validateAuthPath, CalcBaseW): memory safety for every length, signature layout length 2180+32h with the index field equal to the consumed index, index automaton (C02), frames. Bounded part (labelled bounded, never counted as discharged): (1) the BDS traversal invariant 'the stored authentication path of leaf i is Node(j,(i>>j) xor 1) and the root is Node(h,0)' is evaluated on the REAL traversal code for EVERY index of every listed height with node labels in place of digests (only hashH and genLeafWOTS bodies are spliced, mechanically, on each run); (2) with the real hash functions every signature at every index of the small heights verifies. Under functional contract since: genChain = recursive spec chain (with composition lemma chain(chain(X,s,a),s+a,b) = chain(X,s,a+b) and congruence lemmas by induction), CalcBaseW digits + checksum, wotsSign / wOTSPKGen / wotsPKFromSig node-wise, lTree = lnode, validateAuthPath = fold, xmssVerifySig accepts iff the closed-form root equals the pk root (C04). Composition: the lemma function verifLemmaWotsSignThenRecover proves wotsPKFromSig(wotsSign(m)) == wOTSPKGen for every message, seed, address and parameter set, and verifLemmaLeafFromSignature proves that the leaf the verifier recomputes from a signature equals the leaf genLeafWOTS computes for the same address (genLeafWOTS under a functional contract). Not deductive: the BDS traversal invariant (the authentication path in the signature is the sibling path of the leaf, the stored root is the Merkle root) - that is the bounded label run.",
 		extras: func(e *Engine, tier string, seed int) []ExtraResult {
 			out := e.labelRun(labelHeights(tier))
 			hs := []int{4}
